@@ -1,5 +1,109 @@
 import BigtreeModel.Proto
-/-! Driver handler for property C09: one case (token list) in, one canonical line out. -/
+import BigtreeModel.Search
+/-! Driver handler for property C09 (search).
+
+`fn=<function> start=<id> sep=<xhex> [cond=<all|none|id,id,…>] [name=<xhex>] [q=<xhex>] [k=<xhex> v=<val>]
+ [md=<n>] [min=<n>] [max=<n>] (T <tree> | B <btree>)`
+→ `list <ids>` (tuple results) | `one <id>` | `none` (single results) | `SearchError` | `rej`.
+A BinaryNode tree is searched through its generic view (empty slots skipped), except
+`find_children`/`find_child`, which run on the two slots themselves. -/
 namespace Drv.C09
-def handle (_toks : List String) : String := "unimplemented"
+open Proto Query Search
+
+def locate (R : Tree) (i : Nat) : Option Addr :=
+  (subtreeLocs R []).find? fun a => idAt R a == some i
+
+def findB (i : Nat) : BTree → Option BTree
+  | .nil => none
+  | .node j n a l r =>
+    if i == j then some (.node j n a l r)
+    else match findB i l with
+      | some b => some b
+      | none => findB i r
+
+def idSet (s : String) : Option (Nat → Bool) :=
+  if s == "all" then some fun _ => true
+  else if s == "none" then some fun _ => false
+  else (parseNats s).map fun l => fun i => l.contains i
+
+def showList (R : Tree) : Except Err (List Addr) → Option String
+  | .error .search => some "SearchError"
+  | .error .value => some "rej"
+  | .error .unmodelled => some "out-of-scope"
+  | .ok l => do
+    let xs ← l.mapM (idAt R)
+    pure ("list " ++ showNats xs)
+
+def showOne (R : Tree) : Except Err (Option Addr) → Option String
+  | .error .search => some "SearchError"
+  | .error .value => some "rej"
+  | .error .unmodelled => some "out-of-scope"
+  | .ok none => some "none"
+  | .ok (some a) => (idAt R a).map fun i => "one " ++ toString i
+
+def bid : BTree → Nat
+  | .nil => 0
+  | .node i _ _ _ _ => i
+
+def natOpt (toks : List String) (key : String) : Option Nat :=
+  match kv toks key with
+  | none => some 0
+  | some s => s.toNat?
+
+def handle (toks : List String) : String :=
+  let r : Option String := do
+    let fn ← kv toks "fn"
+    let start ← (← kv toks "start").toNat?
+    let sep ← unhex (← kv toks "sep")
+    let md ← natOpt toks "md"
+    let minC ← natOpt toks "min"
+    let maxC ← natOpt toks "max"
+    let rest := toks.dropWhile fun t => t ≠ "T" && t ≠ "B"
+    let (R, bt) ← match rest with
+      | "T" :: ts => do
+        let (t, tail) ← parseTree ts
+        if tail.isEmpty then pure (t, (none : Option BTree)) else none
+      | "B" :: ts => do
+        let (b, tail) ← parseBTree ts
+        if !tail.isEmpty then none else
+        match b.toTrees with
+        | [t] => pure (t, some b)
+        | _ => none
+      | _ => none
+    let a ← locate R start
+    let condIds : Option (Nat → Bool) := (kv toks "cond").bind idSet
+    let cond : Option (Addr → Bool) := condIds.map fun f => fun b => ((idAt R b).map f).getD false
+    match fn with
+    | "findall" => showList R (findall R a (← cond) md minC maxC)
+    | "find" => showOne R (find R a (← cond) md)
+    | "find_name" => showOne R (findName R a (← unhex (← kv toks "name")) md)
+    | "find_names" => showList R (findNames R a (← unhex (← kv toks "name")) md)
+    | "find_path" => showOne R (findPath R sep a (← unhex (← kv toks "q")))
+    | "find_paths" => showList R (findPaths R sep a (← unhex (← kv toks "q")))
+    | "find_full_path" => showOne R (findFullPath R sep a (← unhex (← kv toks "q")))
+    | "find_attr" => showOne R (findAttr R a (← unhex (← kv toks "k")) (← parseVal (← kv toks "v")) md)
+    | "find_attrs" => showList R (findAttrs R a (← unhex (← kv toks "k")) (← parseVal (← kv toks "v")) md)
+    | "find_children" =>
+      match bt with
+      | none => showList R (findChildren R a (← cond) minC maxC)
+      | some b => do
+        -- the two slots themselves; the count contract is the shared `checkResultCount`
+        let res := (findChildrenB (← condIds) (← findB start b)).map bid
+        match checkResultCount res.length minC maxC with
+        | .error _ => pure "SearchError"
+        | .ok () => pure ("list " ++ showNats res)
+    | "find_child" =>
+      match bt with
+      | none => showOne R (findChild R a (← cond))
+      | some b => do
+        let res := (findChildrenB (← condIds) (← findB start b)).map bid
+        match checkResultCount res.length 0 1 with
+        | .error _ => pure "SearchError"
+        | .ok () => pure (match res.head? with | none => "none" | some i => "one " ++ toString i)
+    | "find_child_by_name" => showOne R (findChildByName R a (← unhex (← kv toks "name")))
+    | "find_relative_path" => showOne R (findRelativePath R sep a (← unhex (← kv toks "q")))
+    | "find_relative_paths" => showList R (findRelativePaths R sep a (← unhex (← kv toks "q")) minC maxC)
+    | _ => none
+  r.getD "bad-op"
+
 end Drv.C09
